@@ -710,6 +710,10 @@ impl Xot {
                         span_info.extend_text_span(node_id.into(), text.into());
                     }
                     Cdata { text, span: _ } => {
+                        // an empty section denotes no characters at all
+                        if text.as_str().is_empty() {
+                            continue;
+                        }
                         let node_id = builder.cdata_text(text.as_str(), self)?;
                         span_info.extend_text_span(node_id.into(), text.into());
                     }
